@@ -82,3 +82,97 @@ Proof.
   - apply keyed_insert. intros k o r H. discriminate.
   - split; [repeat constructor; intros []|]. intros r [Hr|[]] cur Hl. subst r. vm_compute in Hl. injection Hl as H. subst cur. reflexivity.
 Qed.
+
+(* ------------------------------------------------------------------ rev_identifies discharged (Reconciler/StatusOnly.v) *)
+From SV Require Import Reconciler.TableWf Reconciler.RoundInv Reconciler.Runs Reconciler.StatusOnly.
+
+(* round_trace names the intermediate states of a round: (tr_e1, tr_q1, tr_res1) after the change-stream
+   phase, (tr_t1, tr_q2) after the first commitStatus, (tr_e3, tr_q3, tr_res2) after the retry phase,
+   (tr_t2, tr_q4) after the second commitStatus — and these are the stages round goes through *)
+Theorem C15_round_trace_is_round : forall cf e s, let tr := round_trace cf e s in
+  (exists nrec1 lastrev1 nrec3,
+     phase1 cf (e_tab e) (changes_of (e_tab e) (k_cursor s)) e (k_ret s) = (tr_e1 tr, tr_q1 tr, tr_res1 tr, nrec1, lastrev1) /\
+     process_retries (N.to_nat (cf_rs cf)) (cf_rs cf) (e_tab e) (set_tab (tr_e1 tr) (tr_t1 tr)) (tr_q2 tr) [] nrec1 =
+       (tr_e3 tr, tr_q3 tr, tr_res2 tr, nrec3)) /\
+  commit_status (e_now (tr_e1 tr)) (e_tab (tr_e1 tr)) (tr_q1 tr) (tr_res1 tr) = (tr_t1 tr, tr_q2 tr) /\
+  commit_status (e_now (tr_e3 tr)) (e_tab (tr_e3 tr)) (tr_q3 tr) (tr_res2 tr) = (tr_t2 tr, tr_q4 tr) /\
+  e_tab (fst (round cf e s)) = tr_t2 tr /\ k_ret (snd (round cf e s)) = tr_q4 tr.
+Proof. exact round_trace_spec. Qed.
+Print Assumptions C15_round_trace_is_round.
+
+(* (a) the hypotheses of C15_commit_changes_status_only hold at both status commits of every round of every
+   run (single or batch mode, any round size/backoff, any fault oracle, any user writes between rounds or
+   from inside operations, any timing): the table is keyed, result keys are pairwise distinct, and every
+   committed result (obj, rev) identifies the object version the table holds at revision rev *)
+Theorem C15_results_identify_versions : forall cf st, reach cf st ->
+  let tr := round_trace cf (fst st) (snd st) in
+  (keyed (e_tab (tr_e1 tr)) /\ res_consistent (e_tab (tr_e1 tr)) (tr_res1 tr)) /\
+  (keyed (e_tab (tr_e3 tr)) /\ res_consistent (e_tab (tr_e3 tr)) (tr_res2 tr)).
+Proof. exact results_identify_versions. Qed.
+Print Assumptions C15_results_identify_versions.
+
+(* the invariant behind (a), inductive over reach: full_inv plus "status ids identify payload versions and
+   every queued update retry still identifies its version" (StatusOnly.sinv) *)
+Theorem C15_status_invariant_reachable : forall cf st, reach cf st -> c15_inv (fst st) (snd st).
+Proof. exact c15_inv_reach. Qed.
+Print Assumptions C15_status_invariant_reachable.
+
+(* a whole commitStatus on identified results leaves the statuses-erased table (keys in slot order with the
+   payload version of the live object, None for a deleted one) exactly as it was *)
+Theorem C15_commit_preserves_erased_table : forall fixed efb now res t q t' q', keyed t -> res_consistent t res ->
+  commit_status_gen fixed efb now t q res = (t', q') -> erase t' = erase t.
+Proof. exact commit_status_erase. Qed.
+Print Assumptions C15_commit_preserves_erased_table.
+
+(* (b) unconditionally, for every reachable state and the round executed from it: the table moves by user
+   writes of the registered hooks (do_write on keys in K) during the change-stream phase, by a status-only
+   change (same erased table, deleted/absent keys untouched) at the first commitStatus, by user writes of
+   hooks during the retry phase, by a status-only change at the second commitStatus — and that is the table
+   after the round. Every payload change in a round is a do_write. *)
+Theorem C15_round_commits_change_only_statuses : forall cf st, reach cf st ->
+  forall e' s', round cf (fst st) (snd st) = (e', s') ->
+  let tr := round_trace cf (fst st) (snd st) in
+  let K := hook_keys (fst st) in
+  user_writes_in K (e_tab (fst st)) (e_tab (tr_e1 tr)) /\
+  status_only (e_tab (tr_e1 tr)) (tr_t1 tr) /\
+  user_writes_in K (tr_t1 tr) (e_tab (tr_e3 tr)) /\
+  status_only (e_tab (tr_e3 tr)) (e_tab e').
+Proof. exact round_commits_change_only_statuses. Qed.
+Print Assumptions C15_round_commits_change_only_statuses.
+
+(* per key over the whole round: a key no registered hook writes to keeps its payload version; if it was
+   deleted or absent it stays exactly as it was (no resurrection) *)
+Theorem C15_round_keeps_unhooked_payloads : forall cf st, reach cf st ->
+  forall e' s', round cf (fst st) (snd st) = (e', s') ->
+  forall pk, ~ hook_keys (fst st) pk ->
+    payload (e_tab e') pk = payload (e_tab (fst st)) pk /\
+    (not_live (e_tab (fst st)) pk -> slot_of (e_tab e') pk = slot_of (e_tab (fst st)) pk).
+Proof. exact round_keeps_unhooked_payloads. Qed.
+Print Assumptions C15_round_keeps_unhooked_payloads.
+
+(* with no hook registered, a whole round changes statuses only *)
+Theorem C15_round_without_hooks_changes_only_statuses : forall cf st, reach cf st -> e_hooks (fst st) = [] ->
+  forall e' s', round cf (fst st) (snd st) = (e', s') -> status_only (e_tab (fst st)) (e_tab e').
+Proof. exact round_without_hooks_changes_only_statuses. Qed.
+Print Assumptions C15_round_without_hooks_changes_only_statuses.
+
+(* non-vacuity: a reachable state (two puts, a fault, a hook that puts a new version of key 2 from inside the
+   first Update of key 1) whose round commits two change-stream results — the payload of key 2 changes
+   2 -> 3 by the hook's user write, the commits change nothing in the erased table — and the reachable state
+   one round later whose round commits a change-stream result and a retry result *)
+Example C15_status_only_nonvacuous :
+  reach ex_cf ex_st0 /\ reach ex_cf ex_st1 /\
+  (let tr := round_trace ex_cf (fst ex_st0) (snd ex_st0) in
+   map (fun r => (o_pk (r_obj r), o_ver (r_obj r), r_rev r, r_ok r)) (tr_res1 tr) = [(1, 1, 1, false); (2, 2, 2, true)] /\
+   tr_res2 tr = [] /\
+   erase (e_tab (fst ex_st0)) = [(1, Some 1); (2, Some 2)] /\
+   erase (e_tab (tr_e1 tr)) = [(1, Some 1); (2, Some 3)] /\
+   erase (tr_t1 tr) = [(1, Some 1); (2, Some 3)] /\
+   live_objs (tr_t2 tr) = [(1, 1, 3); (2, 3, 0)]) /\
+  (let tr := round_trace ex_cf (fst ex_st1) (snd ex_st1) in
+   map (fun r => (o_pk (r_obj r), o_ver (r_obj r), r_rev r, r_ok r)) (tr_res1 tr) = [(2, 3, 3, true)] /\
+   map (fun r => (o_pk (r_obj r), o_ver (r_obj r), r_rev r, r_ok r)) (tr_res2 tr) = [(1, 1, 4, true)] /\
+   erase (tr_t2 tr) = [(1, Some 1); (2, Some 3)] /\
+   live_objs (tr_t2 tr) = [(1, 1, 2); (2, 3, 2)]) /\
+  hook_keys (fst ex_st0) 2 /\ ~ hook_keys (fst ex_st0) 1.
+Proof. exact ex_traces. Qed.
